@@ -66,6 +66,14 @@ def concretize(rec):
             kept_d = [t for d, t in decls if d in info["kept"]["ds"]]
             kept_a = [t for (a, t), keep in zip(attrs, info["keepmask"]) if keep]
             kparts = (kept_d + kept_a) if it["dfirst"] else (kept_a + kept_d)
+            if it.get("un"):
+                # an unclosed start tag (tag soup): no content of its own, closed implicitly by its parent's end tag
+                # (its name differs from every element that has an end tag)
+                name = (it["ep"] + ":" if it["ep"] else "") + ("ublock" if it["ep"] else "br")
+                src.append("<" + name + "".join(" " + t for t in parts) + ">")
+                if info["kept"]["tag"]:
+                    exp.append("<" + name + "".join(" " + t for t in kparts) + ">")
+                continue
             if it.get("sc"):
                 src.append("<" + name + "".join(" " + t for t in parts) + " />")
                 if info["kept"]["tag"]:
@@ -95,11 +103,11 @@ Pick(S) == RandomElement(S)
 RndOpen ==
   /\\ ~fin /\\ Len(doc) < MaxItems /\\ depth < MaxDepth
   /\\ \\E ds \\in {IF Pick(BOOLEAN) THEN {} ELSE {Pick(Decl)}}, a1 \\in {Pick(Attr \\cup {[f |-> "none"]})},
-         a2 \\in {Pick(Attr \\cup {[f |-> "none"]})}, sc \\in {Pick(BOOLEAN)}, ep \\in {Pick(ElemP)}, dfirst \\in {Pick(BOOLEAN)} :
+         a2 \\in {Pick(Attr \\cup {[f |-> "none"]})}, sc \\in {Pick(BOOLEAN)}, un \\in {Pick(BOOLEAN)}, ep \\in {Pick(ElemP)}, dfirst \\in {Pick(BOOLEAN)} :
         /\\ doc' = Append(doc, [k |-> "open", ds |-> ds,
                                 as |-> SelectSeq(<<a1, IF a1.f = "none" THEN a1 ELSE a2>>, LAMBDA a : a.f # "none"),
-                                ep |-> ep, dfirst |-> dfirst, sc |-> sc])
-        /\\ depth' = IF sc THEN depth ELSE depth + 1
+                                ep |-> ep, dfirst |-> dfirst, sc |-> sc /\\ ~(un /\\ depth > 0), un |-> un /\\ depth > 0])
+        /\\ depth' = IF sc \\/ (un /\\ depth > 0) THEN depth ELSE depth + 1
   /\\ UNCHANGED fin
 SimSpec == Init /\\ [][RndOpen \\/ AddClose \\/ Finish]_vars
 Emit == (fin /\\ WellBound) => PrintT(ToJson([doc |-> doc, info |-> [n \\in 1..Len(doc) |-> Info(n)]]))
